@@ -68,30 +68,138 @@ def _run_chunk(args):
     return out
 
 
-SLOW = {'DateTime': 150, 'NumberWithUnit': 400}
+# ---------------------------------------------------------------- scheduling: sticky bins, not a shared chunk queue
+
+RATE = {'DateTime': 1 / 30.0, 'NumberWithUnit': 1 / 110.0, 'Number': 1 / 1200.0, 'Sequence': 1 / 3000.0,
+        'Choice': 1 / 1500.0}
+RATE_MT = {'CurrencyModel': 1 / 40.0}
+LOAD = {'DateTime': 4.0, 'NumberWithUnit': 1.2, 'Number': 0.4, 'Sequence': 0.2, 'Choice': 0.2}
+LAST_STATS = {}
 
 
-def run(tasks, nproc=16, timeout=10.0):
-    """Chunks never mix (recognizer, model_type, culture) pairs, so a worker loads few models."""
+def task_cost(t, scale=1.0):
+    r = RATE_MT.get(t[1], RATE.get(t[0], 1 / 1000.0))
+    if t[0] in ('DateTime', 'NumberWithUnit'):
+        r *= 0.35 + len(t[3]) / 45.0
+    return r * scale
+
+
+def plan_bins(tasks, nbins, scale=1.0):
+    """Every worker gets ONE bin made of whole (recognizer, model, culture) pairs or large pieces of one, so that a
+    model is loaded by as few processes as possible (first use of a date-time culture costs seconds); longest
+    processing time first. -> list of index lists."""
     by_pair = {}
     for i, t in enumerate(tasks):
         by_pair.setdefault(t[:3], []).append(i)
-    chunks = []
-    for pair, idxs in by_pair.items():
-        size = SLOW.get(pair[0], 3000)
-        for k in range(0, len(idxs), size):
-            part = idxs[k:k + size]
-            chunks.append((part, [tasks[i] for i in part], timeout))
-    # slow pairs first so that the tail of the run is made of cheap chunks
-    chunks.sort(key=lambda c: (-len(c[0]) / SLOW.get(c[1][0][0], 3000), c[1][0][:3]))
+    costs = {p: sum(task_cost(tasks[i], scale) for i in idxs) for p, idxs in by_pair.items()}
+    total = sum(costs.values()) + sum(LOAD.get(p[0], 0.3) for p in by_pair)
+    target = max(total / float(nbins), 1e-9)
+    pieces = []
+    for p, idxs in by_pair.items():
+        k = int(min(nbins, max(1, round(costs[p] / (0.8 * target) + 0.499))))
+        for j in range(k):
+            part = idxs[j::k]
+            if part:
+                pieces.append((sum(task_cost(tasks[i], scale) for i in part) + LOAD.get(p[0], 0.3), p, part))
+    pieces.sort(key=lambda x: (-x[0], x[1]))
+    bins = [[0.0, []] for _ in range(nbins)]
+    for c, p, part in pieces:
+        b = min(bins, key=lambda x: x[0])
+        b[0] += c
+        b[1].extend(part)
+    return [b[1] for b in bins if b[1]]
+
+
+def _run_bin(args):
+    import time
+    t0 = time.time()
+    out = _run_chunk(args)
+    return out, time.time() - t0
+
+
+# ---------------------------------------------------------------- content-addressed cache (/verif/.cache/span)
+
+def _src_hash(*mods):
+    import hashlib
+    h = hashlib.sha256()
+    for m in mods:
+        with open(m.__file__.replace('.pyc', '.py'), 'rb') as f:
+            h.update(f.read())
+    return h.hexdigest()
+
+
+def cache_key(kind, payload, *mods):
+    """key = every .py of the working tree's libraries + the shims (dtpipe.tree_hash) + the harness modules that
+    produce the result + the job list.  Any edit to the tree or to the runner changes the key."""
+    import hashlib
+    import json
+    from . import dtpipe
+    blob = json.dumps(payload, ensure_ascii=False, sort_keys=True, default=str)
+    return kind + '-' + hashlib.sha256((dtpipe.tree_hash() + _src_hash(*mods) + blob).encode('utf-8')).hexdigest()
+
+
+def cache_get(key):
+    import json
+    import os
+    if os.environ.get('VERIF_NO_CACHE'):
+        return None
+    path = os.path.join(common.VERIF, '.cache', 'span', key + '.json')
+    try:
+        with open(path, encoding='utf-8') as f:
+            return json.load(f)
+    except Exception:
+        return None
+
+
+def cache_put(key, value):
+    import json
+    import os
+    import time
+    if os.environ.get('VERIF_NO_CACHE'):
+        return
+    cdir = os.path.join(common.VERIF, '.cache', 'span')
+    try:
+        os.makedirs(cdir, exist_ok=True)
+        for f in os.listdir(cdir):          # keep the cache small: nothing older than six hours
+            fp = os.path.join(cdir, f)
+            if time.time() - os.path.getmtime(fp) > 6 * 3600:
+                os.remove(fp)
+        tmp = os.path.join(cdir, key + '.tmp%d' % os.getpid())
+        with open(tmp, 'w', encoding='utf-8') as f:
+            json.dump(value, f, ensure_ascii=False)
+        os.replace(tmp, os.path.join(cdir, key + '.json'))
+    except Exception:
+        pass
+
+
+def run(tasks, nproc=16, timeout=10.0, cache=True):
+    """One pool for everything; results come back aligned with `tasks`."""
+    import sys
     res = [None] * len(tasks)
-    if not chunks:
+    if not tasks:
         return res
+    key = None
+    if cache:
+        key = cache_key('pipe', [[t[0], t[1], t[2], t[3], str(t[4])] for t in tasks] + [timeout], sys.modules[__name__])
+        hit = cache_get(key)
+        if hit is not None and len(hit) == len(tasks):
+            LAST_STATS.clear()
+            LAST_STATS.update({'cache': 'hit'})
+            return [tuple([r[0], [tuple(s) for s in r[1]], r[2]]) if r and r[0] == 'ok' else (tuple(r) if r else None)
+                    for r in hit]
+    bins = plan_bins(tasks, nproc)
+    jobs = [(idxs, [tasks[i] for i in idxs], timeout) for idxs in bins]
     mpctx = multiprocessing.get_context('fork')
-    with mpctx.Pool(min(nproc, len(chunks)), initializer=_init_worker) as pool:
-        for part in pool.imap_unordered(_run_chunk, chunks):
+    walls = []
+    with mpctx.Pool(min(nproc, len(jobs)), initializer=_init_worker) as pool:
+        for part, wall in pool.imap_unordered(_run_bin, jobs, chunksize=1):
+            walls.append(round(wall, 1))
             for i, r in part:
                 res[i] = r
+    LAST_STATS.clear()
+    LAST_STATS.update({'cache': 'miss', 'bins': len(jobs), 'bin_wall_s_min_max': [min(walls), max(walls)]})
+    if key and not any(r is None or r[0] == 'timeout' for r in res):
+        cache_put(key, res)
     return res
 
 
